@@ -45,6 +45,7 @@ class Gen:
     def __init__(self, defs, seed):
         self.defs = defs["structs"]
         self.rng = random.Random(seed)
+        self.prelude = []        # C functions (callback bodies) that have to precede main()
 
     # ---------------------------------------------------------------------------------- abstract values
     def value(self, t, pos):
@@ -92,6 +93,14 @@ class Gen:
             return {"err": None if t["err"]["k"] == "unit" else self.value(t["err"], pos)}
         if k == "unit":
             return None
+        if k == "cb":
+            # the script of the callback: how often the Rust body invokes it, with which arguments, and what the
+            # foreign side answers each time
+            calls = []
+            for _ in range(r.choice([0, 1, 1, 2, 3])):
+                calls.append({"args": [self.value(a, "param") for a in t["ps"]],
+                              "ret": None if t["r"]["k"] == "unit" else self.value(t["r"], "param")})
+            return {"calls": calls}
         raise ValueError(k)
 
     # ---------------------------------------------------------------------------------- expected tokens
@@ -125,6 +134,8 @@ class Gen:
             return "err(%s)" % ("" if t["err"]["k"] == "unit" else self.tok(t["err"], v["err"]))
         if k == "unit":
             return "()"
+        if k == "cb":
+            return "cb"
         raise ValueError(k)
 
     # ---------------------------------------------------------------------------------- Rust side
@@ -168,6 +179,8 @@ class Gen:
             return 'match &(%s) { Ok(x) => { let _ = &x; format!("ok({})", %s) } Err(x) => { let _ = &x; format!("err({})", %s) } }' % (e, ok, er)
         if k == "unit":
             return '"()".to_string()'
+        if k == "cb":
+            return '"cb".to_string()'
         raise ValueError(k)
 
     def rust_lit(self, p, bits):
@@ -236,6 +249,20 @@ class Gen:
         lines = ['crate::dv_event("RustEnter", "f%d", &vec![%s].join(";"));' % (n, ", ".join(slots) if slots else "String::new()")]
         if not slots:
             lines = ['crate::dv_event("RustEnter", "f%d", "");' % n]
+        for i, p in enumerate(sig["params"]):
+            if p["k"] != "cb":
+                continue
+            for call in args["params"][i]["calls"]:
+                binds, names, fmts = [], [], []
+                for j, (a, x) in enumerate(zip(p["ps"], call["args"])):
+                    binds.append("let c%d_ = %s;" % (j, self.rust_make(a, x)))
+                    names.append("c%d_" % j)
+                    fmts.append(self.rust_fmt(a, "c%d_" % j))
+                tokens = "&vec![%s].join(\";\")" % ", ".join(fmts) if fmts else '""'
+                res = '"()".to_string()' if p["r"]["k"] == "unit" else self.rust_fmt(p["r"], "cr_")
+                lines.append('{ %s crate::dv_event("CbInvoke", "f%d.cb%d", %s); let cr_ = p%d(%s); let _ = &cr_; '
+                             'crate::dv_event("CbResult", "f%d.cb%d", &%s); }'
+                             % (" ".join(binds), n, i, tokens, i, ", ".join(names), n, i, res))
         if sig["write"]:
             lines.append("use core::fmt::Write as _;")
             for chunk in wtext:
@@ -304,6 +331,8 @@ class Gen:
                 else:
                     out.append("%s[%d] = (%s)0x%xULL;" % (nm, j, cty, x))
             out.append("%s.data = %s; %s.len = %d;" % (lv, nm, lv, len(items)))
+        elif k == "cb":
+            out.append("%s.data = NULL; %s.run_callback = %s; %s.destructor = %s;" % (lv, lv, v["c_run"], lv, v["c_drop"]))
         else:
             raise ValueError("c_assign " + k)
 
@@ -357,8 +386,50 @@ class Gen:
             out.append('L(")"); }')
         elif k == "unit":
             out.append('L("()");')
+        elif k == "cb":
+            out.append('L("cb");')
         else:
             raise ValueError("c_fmt " + k)
+
+    def c_ty(self, t):
+        k = t["k"]
+        if k == "prim":
+            return CTY[t["p"]]
+        if k == "enum":
+            return "En"
+        if k == "struct":
+            return t["n"]
+        if k == "unit":
+            return "void"
+        raise ValueError("c_ty " + k)
+
+    def c_callback(self, n, i, t, v):
+        """emit the C functions behind callback parameter i of call n: run_callback logs what it receives (CbEnter),
+        answers with the scripted value (CbReturn); the destructor logs CbDrop"""
+        run, drop, f = "cb_%d_%d" % (n, i), "cbd_%d_%d" % (n, i), "f%d.cb%d" % (n, i)
+        ps = "".join(", %s c%d" % (self.c_ty(a), j) for j, a in enumerate(t["ps"]))
+        body = ["(void)d_; LB();"]
+        for j, a in enumerate(t["ps"]):
+            if j:
+                body.append('L(";");')
+            self.c_fmt(a, "c%d" % j, body)
+        body.append('LE("CbEnter", "%s");' % f)
+        rt = self.c_ty(t["r"])
+        if t["r"]["k"] != "unit":
+            body.append("%s r_; memset(&r_, 0, sizeof r_); static int k_; switch (k_++) {" % rt)
+            for c, call in enumerate(v["calls"]):
+                asg = []
+                self.c_assign(t["r"], call["ret"], "r_", asg, [])
+                body.append("case %d: %s break;" % (c, " ".join(asg)))
+            body.append("default: break; }")
+            body.append("LB();")
+            self.c_fmt(t["r"], "r_", body)
+            body.append('LE("CbReturn", "%s"); return r_;' % f)
+        else:
+            body.append('LB(); L("()"); LE("CbReturn", "%s");' % f)
+        self.prelude.append("static %s %s(const void* d_%s) { %s }" % (rt, run, ps, " ".join(body)))
+        self.prelude.append('static void %s(const void* d_) { (void)d_; LB(); LE("CbDrop", "%s"); }' % (drop, f))
+        return {"c_run": run, "c_drop": drop}
 
     def c_call(self, n, sig, sym, proto, args, write):
         """C statements performing one call. proto = (ret C type, [param C types]) parsed from the generated header."""
@@ -380,6 +451,8 @@ class Gen:
             idx += 1
         for i, p in enumerate(sig["params"]):
             out.append("%s a%d; memset(&a%d, 0, sizeof a%d);" % (ptys[idx], i, i, i))
+            if p["k"] == "cb":
+                args["params"][i] = dict(args["params"][i], **self.c_callback(n, i, p, args["params"][i]))
             self.c_assign(p, args["params"][i], "a%d" % i, out, tmp)
             names.append("a%d" % i)
             slot_fmt.append((p, "a%d" % i))
@@ -395,7 +468,11 @@ class Gen:
                 out.append('L("p:%%llx", (unsigned long long)(uintptr_t)%s);' % e)
             else:
                 self.c_fmt(t, e, out)
-        out.append('LE("CCall", "f%d");' % n)
+        cbs = ["f%d.cb%d" % (n, i) for i, p in enumerate(sig["params"]) if p["k"] == "cb"]
+        if cbs:
+            out.append('LEC("f%d", "%s");' % (n, json.dumps(cbs).replace('"', '\\"')))
+        else:
+            out.append('LE("CCall", "f%d");' % n)
         call = "%s(%s)" % (sym, ", ".join(names))
         if sig["ret"]["k"] == "unit":
             out.append(call + ";")
@@ -460,4 +537,5 @@ static void LB(void) { static int init_; if (!init_) { setvbuf(stdout, NULL, _IO
 static void L(const char* fmt, ...) { va_list ap; va_start(ap, fmt); ln_ += (size_t)vsnprintf(lb_ + ln_, sizeof lb_ - ln_, fmt, ap); va_end(ap); }
 void dv_log(const char* kind, const char* f, const char* v) { printf("{\"seq\":%lu,\"ev\":\"%s\",\"f\":\"%s\",\"v\":\"%s\"}\n", ++seq_, kind, f, v); }
 static void LE(const char* kind, const char* f) { dv_log(kind, f, lb_); }
+static void LEC(const char* f, const char* cbs) { printf("{\"seq\":%lu,\"ev\":\"CCall\",\"f\":\"%s\",\"v\":\"%s\",\"cbs\":%s}\n", ++seq_, f, lb_, cbs); }
 '''
